@@ -12,6 +12,7 @@ import (
 	"encoding/hex"
 	"errors"
 	"fmt"
+	"net"
 	"net/netip"
 	"strconv"
 	"strings"
@@ -138,6 +139,14 @@ func errClass(err error) string {
 		return "frag"
 	case errors.Is(err, ss2022.ErrIdentityHeaderUserPSKNotFound):
 		return "userNotFound"
+	case errors.Is(err, ss2022.ErrTooManyServerSessions):
+		return "tooManySessions"
+	case errors.Is(err, ss2022.ErrReplay):
+		return "replay"
+	}
+	var de *net.DNSError
+	if errors.As(err, &de) {
+		return "resolve"
 	}
 	m := err.Error()
 	switch {
@@ -196,19 +205,23 @@ type world struct {
 	ssServer  *ss2022.UDPServer
 
 	// ss2022 key material
-	psk       []byte
-	ipsks     [][]byte
-	ccfg      *ss2022.ClientCipherConfig
-	userCfg   ss2022.UserCipherConfig
-	hashes    []byte // concatenated identity hashes as the client embeds them
-	sepBlock  cipher.Block
-	userBlock cipher.Block
-	idBlocks  []cipher.Block
+	psk         []byte
+	ipsks       [][]byte
+	ccfg        *ss2022.ClientCipherConfig
+	userCfg     ss2022.UserCipherConfig
+	hashes      []byte // concatenated identity hashes as the client embeds them
+	otherHashes []byte // multi-user server: PSK hashes of the other users in the lookup map
+	userPos     int    // …and where the model's user table lists the client's user among them
+	sepBlock    cipher.Block
+	userBlock   cipher.Block
+	idBlocks    []cipher.Block
 
-	dc         socks5.DomainCache // of the harness-assembled unpacker (more than one identity header)
-	tunnel     conn.Addr
-	polC, polS string // padding policies of the client / of the server (ss2022)
-	only       bool   // direct server: tunnelUDPTargetOnly
+	dc             socks5.DomainCache // of the harness-assembled unpacker (more than one identity header)
+	res            string             // direct client: what the scripted resolver answers for a domain target ("" = failure)
+	statefulClient bool               // hist: the client unpacker instance is reused, the model threads its state
+	tunnel         conn.Addr
+	polC, polS     string // padding policies of the client / of the server (ss2022)
+	only           bool   // direct server: tunnelUDPTargetOnly
 }
 
 func serverAddrPort(v6 bool) netip.AddrPort {
@@ -327,7 +340,21 @@ func newWorld(p proto, mtu int, srv6 bool, polC, polS string, tunnel conn.Addr, 
 			if err != nil {
 				return nil, err
 			}
-			w.ssServer.ReplaceUserLookupMap(ss2022.UserLookupMap{ss2022.PSKHash(w.psk): su})
+			// a multi-user server: 2 or 3 users in the lookup map, the client is one of them
+			ulm := ss2022.UserLookupMap{ss2022.PSKHash(w.psk): su}
+			nOthers := 1 + int(keySeed>>3)%2
+			for i := 0; i < nOthers; i++ {
+				opsk := derivKey(keySeed^0x5bd1e995, 100+i, keyLen)
+				ou, err := ss2022.NewServerUserCipherConfig(fmt.Sprintf("other%d", i), opsk, true)
+				if err != nil {
+					return nil, err
+				}
+				h := ss2022.PSKHash(opsk)
+				ulm[h] = ou
+				w.otherHashes = append(w.otherHashes, h[:]...)
+			}
+			w.userPos = int(keySeed>>5) % (nOthers + 1)
+			w.ssServer.ReplaceUserLookupMap(ulm)
 		default:
 			// the repository's server handles one identity layer; for k >= 2 the receiving side is
 			// assembled by the harness from the exported primitives (see assembledServerUnpack)
